@@ -34,7 +34,7 @@ PROPS = {
                      "with get(q,r) on all states is compared exactly with the greatest downward / upward simulation computed "
                      "by naive refinement; non-trivial = relation strictly between identity and full",
                 assumptions=PROOF_ASSUME),
-    "C05": dict(level="proof", cli=dict(kinds=[("cliop_c05", 1)], quick=150, thorough=4000), kinds=[("reduce", 24), ("binrel", 1)], n=dict(quick=3120, thorough=300000, search=4000),
+    "C05": dict(level="proof", cli=dict(kinds=[("cliop_c05", 1)], quick=150, thorough=4000), kinds=[("reduce", 48), ("binrel", 1)], n=dict(quick=9000, thorough=300000, search=4000),
                 rule="automata with duplicated (simulation-equivalent) states, sparse numbers, useless states; Reduce judged by "
                      "equivM, the two counts and states ⊆; non-trivial = the number of states decreased",
                 assumptions=PROOF_ASSUME),
